@@ -145,6 +145,18 @@ claim("C04", "exploration",
       "upcast(downcast(x)) as x on both sides when that rule fired.",
       "DESIGN.md section 3 C04")
 
+claim("C12", "exploration",
+      "runtime contract on apmath.renormalize (eager, functional, emitted NumPy code) with exact integer sums and an independent overlap predicate",
+      "Expansions of length 1..6 in float16/32/64 (documented-precondition inputs: overlapping or not, interior zeros, equal magnitudes, cancellation, "
+      "alternating signs, subnormal tails, near-overflow heads; and arbitrarily ordered lists for the sum clause) go through the real renormalize / add / "
+      "subtract / multiply / square, eager and functional, fast and safe, with size limits; a recording contract on renormalize (also reached from the "
+      "operations built on it) compares exact sums of inputs and outputs, output length and zero placement; two passes must reach decreasing, "
+      "non-overlapping order; add/subtract are exact when not truncated; products are within ulp(leading term). The functional variant is also traced, "
+      "emitted for the NumPy target and run on arrays; float16 pairs are enumerated in the thorough tier.",
+      "Trusted: vf.exact. fast=True is judged on decreasing non-overlapping inputs only (Fast2Sum's own domain). Normal form is judged on inputs satisfying the "
+      "documented precondition (decreasing magnitudes), with |b| <= ulp(a) as non-overlap.",
+      "DESIGN.md section 3 C12")
+
 SOURCE_COMMITS = []
 
 
